@@ -1,65 +1,158 @@
 """C39 rueidisaside: Aside.tla (exhaustive + negative configs + liveness), TLC-generated and counterexample-derived
 scenarios driven through real cache-aside clients over fakeredis (asidedrv), traces judged by AsideTrace.tla."""
-import json, os, re, shutil, tempfile
+import json, os, re, shutil, tempfile, threading
 from lib import vlib
 from checks import lockaside_common
 
 LEVEL = 'model_checking'
 FAMILY = 'addons'
 
-QUICK = ['MC_aside_q1.cfg', 'MC_aside_q2.cfg', 'MC_aside_q3.cfg', 'MC_aside_q4.cfg']
-THOROUGH = ['MC_aside_t1.cfg', 'MC_aside_t2.cfg', 'MC_aside_t3.cfg']
+QUICK = ['MC_aside_q1.cfg', 'MC_aside_q2.cfg', 'MC_aside_q3.cfg', 'MC_aside_q4.cfg',
+         'MC_aside_q5.cfg', 'MC_aside_q6.cfg', 'MC_aside_q7.cfg', 'MC_aside_q8.cfg']
+THOROUGH = ['MC_aside_t1.cfg', 'MC_aside_t2.cfg', 'MC_aside_t3.cfg', 'MC_aside_t4.cfg', 'MC_aside_t5.cfg', 'MC_aside_t6.cfg', 'MC_aside_t7.cfg', 'MC_aside_t8.cfg']
 NEG = [('MC_aside_neg_ph.cfg', 'NeverReturnsPlaceholder'), ('MC_aside_neg_live.cfg', 'LoaderOnceWhileHolderAlive'),
-       ('MC_aside_neg_live2.cfg', 'LockStolenOnlyFromDead'), ('MC_aside_neg_del.cfg', 'DelOnlyOwn')]
+       ('MC_aside_neg_live2.cfg', 'LockStolenOnlyFromDead'), ('MC_aside_neg_del.cfg', 'DelOnlyOwn'),
+       # round 2: the loser of a registration race keeps its id / fn == nil returns the first read / plain DEL of a dead lock
+       ('MC_aside_neg_adopt.cfg', 'LockNamesRefreshedId'), ('MC_aside_neg_adopt2.cfg', 'LoaderOnceWhileHolderAlive'),
+       ('MC_aside_neg_nil.cfg', 'NeverReturnsPlaceholder'), ('MC_aside_neg_steal.cfg', 'DelOnlyOwn'),
+       ('MC_aside_neg_steal2.cfg', 'LoaderOnceWhileHolderAlive')]
 SIG = {'NeverReturnsPlaceholder': 'aside-get-returns-placeholder',
        'ValueFromLoaderOrStore': 'aside-get-returns-value-neither-loaded-nor-stored',
        'LoaderOnceWhileHolderAlive': 'aside-second-loader-while-holder-alive',
        'LockStolenFromLiveHolder': 'aside-lock-deleted-while-holder-alive',
        'DelOnlyOwn': 'aside-delkey-removed-foreign-value',
-       'DeadLockReleased': 'aside-dead-clients-lock-not-released'}
+       'DeadLockReleased': 'aside-dead-clients-lock-not-released',
+       'LockNamesRefreshedId': 'aside-lock-names-client-id-nobody-refreshes',
+       'HolderMarkerKeptAlive': 'aside-live-holders-marker-expired-unrefreshed'}
+# verdicts that depend on the wall clock or on the scheduling of the driver process: they count when a re-run shows them again
+RERUN = ('DeadLockReleased', 'LockNamesRefreshedId', 'HolderMarkerKeptAlive')
+# caller -> client maps of the configurations whose counterexamples are replayed (ClientOf <- CO_.. in the cfg)
+CO = {'MC_aside_neg_adopt2.cfg': [1, 1, 2]}
 
 
-CEX = {}      # negative config -> TLC result (its error trace is replayed against the real code)
+REPLAYED = (('MC_aside_neg_ph.cfg', 'cex-timeout'), ('MC_aside_neg_live.cfg', 'cex-steal'),
+            ('MC_aside_neg_del.cfg', 'cex-unlock'), ('MC_aside_neg_adopt2.cfg', 'cex-register'),
+            ('MC_aside_neg_nil.cfg', 'cex-nilget'), ('MC_aside_neg_steal2.cfg', 'cex-twowaiters'))
 
 
 def model(ctx, th):
+    """The pure model part (the negative configurations whose counterexamples are replayed run on the driver side)."""
     for c in QUICK + (THOROUGH if th else []):
-        ctx.run_tlc(FAMILY, 'AsideGen', c, workers=8, timeout=1500)
+        ctx.run_tlc(FAMILY, 'AsideGen', c, workers=4, timeout=1500)
     for c, inv in NEG:
-        CEX[c] = ctx.run_tlc(FAMILY, 'AsideGen', c, expect_violation=inv, workers=2, timeout=600)
-    ctx.run_tlc(FAMILY, 'AsideGen', 'MC_aside_live.cfg', workers=4, timeout=900)
+        if c not in dict(REPLAYED):
+            ctx.run_tlc(FAMILY, 'AsideGen', c, expect_violation=inv, workers=2, timeout=600)
+    for c in ('MC_aside_live.cfg', 'MC_aside_live2.cfg'):
+        ctx.run_tlc(FAMILY, 'AsideGen', c, workers=4, timeout=900)
 
 
 # ------------------------------------------------------------------------------------ TLC behaviour -> driver scenario
-ENV = ('Get', 'Die', 'Del', 'KeyExpire', 'IdExpire', 'Disconnect')
+ENVA = ('Die', 'Del', 'KeyExpire', 'IdExpire', 'Disconnect')
 
 
-def project(hist, sid, cls, lua=False, typed=False):
-    """Environment-controlled steps of a behaviour of Aside.tla. The loader of a Get lasts as long as the behaviour keeps
-    it loading (counted in environment steps that happen meanwhile); a Get that times out gets a short TTL."""
-    steps, dead, nclients = [], set(), 2
+def infer_gates(hist):
+    """Interleavings of a behaviour that the real run only reproduces when replies are held on the server double:
+    (1) two callers of one client register an id at once (both wrote one before either adopted);
+    (2) two waiters X, Y on different clients saw the holder's liveness key gone before X released the lock, and Y
+        released after X had taken the lock."""
+    gates = []
+
+    def idx(a, p, lo=0):
+        return next((j for j in range(lo, len(hist)) if hist[j]['a'] == a and hist[j]['p'] == p), None)
+    procs = sorted({r['p'] for r in hist if r['p']})
+    cl = {r['p']: r['c'] for r in hist if r['p']}
+    raced = set()
+    for p in procs:
+        for q in procs:
+            if p < q and cl[p] == cl[q] and cl[p] not in raced:
+                kp, kq = idx('Keepalive', p), idx('Keepalive', q)
+                ap = idx('KaAdopt', p, kp or 0) if kp is not None else None
+                aq = idx('KaAdopt', q, kq or 0) if kq is not None else None
+                if None not in (kp, kq, ap, aq) and kq < ap and kp < aq:
+                    raced.add(cl[p])
+                    gates.append(dict(op='gate', c=cl[p], what='idset', uc=cl[p], until='idset', n=2, ms=500))
+    done = set()
+
+    def last(a, p, hi):
+        return next((j for j in range(hi - 1, -1, -1) if hist[j]['a'] == a and hist[j]['p'] == p), None)
+    for x in procs:
+        for y in procs:
+            if x == y or cl[x] == cl[y] or (cl[x], cl[y]) in done:
+                continue
+            lx = idx('Locked', x)
+            sy = idx('Steal', y, lx + 1) if lx is not None else None
+            if sy is None or hist[lx]['k'] != hist[sy]['k']:
+                continue
+            gx, gy = last('PhGone', x, lx), last('PhGone', y, sy)
+            sx = idx('Steal', x, gx + 1) if gx is not None else None
+            ry = last('Read', y, gy) if gy is not None else None
+            if sx is None or sx > lx or ry is None or ry > sx:
+                continue                 # Y did not look at the lock X released
+            done.add((cl[x], cl[y]))
+            gates.append(dict(op='gate', c=cl[x], what='phgone', uc=cl[y], until='phgone', n=1, ms=700))
+            gates.append(dict(op='gate', c=cl[y], what='phgone', uc=cl[x], until='lock', n=1, ms=700))
+    return gates
+
+
+def project(hist, sid, cls, lua=False, typed=False, slow=0, single=False):
+    """Environment-controlled steps of a behaviour of Aside.tla. A Get is issued where the behaviour reads the key for
+    the first time; its loader lasts as long as the behaviour keeps it loading (counted in environment steps that happen
+    meanwhile); a Get that times out gets a short TTL. An expiry of a liveness key that no refresh serves cannot be forced
+    (the driver cannot tell it from the one the client refreshes): time passes instead."""
+    hist = [dict(r, p=r.get('p', r['c'])) for r in hist]
+    nclients = max([2] + [r['c'] for r in hist])
+    marker = 380 * max(slow, 1)          # ms after which an unrefreshed liveness key is gone
+    emit = {}
+    for n, r in enumerate(hist):
+        if r['a'] not in ('Get', 'GetNil'):
+            continue
+        p, c, k = r['p'], r['c'], r['k']
+        rest = hist[n + 1:]
+        nxt = next((j for j, x in enumerate(rest) if x['a'] in ('Get', 'GetNil') and x['p'] == p), len(rest))
+        mine = rest[:nxt]
+        rd = next((j for j, x in enumerate(mine) if x['a'] == 'Read' and x['p'] == p), None)
+        if rd is None:
+            if any(x['a'] == 'Read' for x in hist):
+                continue                  # the behaviour never let this Get run
+            rd = -1                       # (behaviours from error traces of old configurations carry no Read records)
+        emit[n + 1 + rd] = (n, mine, p, c, k, r['a'] == 'GetNil')
+    starts = set(emit)
+    steps, dead = [], set()
     for n, r in enumerate(hist):
         a, c, k = r['a'], r['c'], r['k']
-        nclients = max(nclients, c)
-        if a == 'Get':
-            rest = hist[n + 1:]
-            nxt = next((j for j, x in enumerate(rest) if x['a'] == 'Get' and x['c'] == c), len(rest))
-            mine = rest[:nxt]
-            lock = next((j for j, x in enumerate(mine) if x['a'] == 'Locked' and x['c'] == c), None)
+        if n in emit:
+            g, mine, p, c, k, isnil = emit[n]
+            off = g + 1                   # mine[j] is hist[off + j]
+            lock = next((j for j, x in enumerate(mine) if x['a'] == 'Locked' and x['p'] == p), None)
             load, fail = 60, False
             if lock is not None:
                 # the loader's result reaches the server with the setkey / delkey script that follows it
-                end = next((j for j, x in enumerate(mine) if j > lock and x['c'] == c and x['a'] in ('SetKey', 'Unlock')), None)
-                res = next((j for j, x in enumerate(mine) if j > lock and x['c'] == c and x['a'] in ('LoadOk', 'LoadFail')), None)
+                end = next((j for j, x in enumerate(mine) if j > lock and x['p'] == p and x['a'] in ('SetKey', 'Unlock')), None)
+                res = next((j for j, x in enumerate(mine) if j > lock and x['p'] == p and x['a'] in ('LoadOk', 'LoadFail')), None)
                 died = next((j for j, x in enumerate(mine) if j > lock and x['c'] == c and x['a'] == 'Die'), None)
                 if end is None or (died is not None and died < end):
-                    load = 1200
+                    load = 1200 + (marker + 150) * sum(1 for x in mine[lock:] if x['a'] == 'IdExpire' and x.get('s') == 'orphan')
                 else:
                     fail = mine[end]['a'] == 'Unlock' or (res is not None and mine[res]['a'] == 'LoadFail')
-                    load = 60 + 150 * sum(1 for x in mine[lock:end] if x['a'] in ENV and x['c'] != c)
-            ttl = 300 if any(x['a'] == 'Timeout' and x['c'] == c for x in mine) else 2000
-            steps.append(dict(op='get', c=c, k=k, ttl=ttl, load=load, fail=fail))
-        elif a == 'Die':
+                    win = range(lock, end)
+                    load = 60 + 150 * sum(1 for j in win if (mine[j]['a'] in ENVA and mine[j]['c'] != c) or
+                                          (off + j in starts and mine[j]['p'] != p))
+                    load += (marker + 150) * sum(1 for j in win if mine[j]['a'] == 'IdExpire' and mine[j].get('s') == 'orphan')
+            ttl = 300 if any(x['a'] == 'Timeout' and x['p'] == p for x in mine) else max(2000, load + 1500)
+            if slow > 1 and ttl > 300:
+                ttl = max(ttl, 4000)
+            st = dict(op='get', c=c, k=k, ttl=ttl, load=load, fail=fail)
+            if isnil:
+                st['nil'] = True
+            # the behaviour lets this Get take the lock before the environment or another Get moves on
+            nxt_step = next((j for j in range(n + 1, len(hist)) if j in starts or hist[j]['a'] in ENVA), None)
+            if lock is not None and nxt_step is not None and off + lock < nxt_step and \
+                    all(x['a'] != 'Locked' for x in hist[n:off + lock]):
+                st['hold'] = True
+            steps.append(st)
+            if a in ('Get', 'GetNil', 'Read'):
+                continue
+        if a == 'Die':
             dead.add(c)
             steps.append(dict(op='die', c=c))
         elif a == 'Del':
@@ -68,67 +161,128 @@ def project(hist, sid, cls, lua=False, typed=False):
         elif a == 'KeyExpire':
             steps.append(dict(op='expire', k=k))
         elif a == 'IdExpire':
-            steps.append(dict(op='expireid', c=c))
+            if r.get('s') == 'orphan':
+                steps.append(dict(op='sleep', ms=marker))
+            else:
+                steps.append(dict(op='expireid', c=c))
         elif a == 'Disconnect':
             steps.append(dict(op='disc', c=c))
-    return dict(id=sid, clients=max(nclients, 2), lua=lua, typed=typed, steps=steps, **{'class': cls})
+    if any(st['op'] == 'expireid' for st in steps):
+        slow, single = 0, single or slow > 1     # a forced expiry of a liveness key is not a missing refresh
+    sc = dict(id=sid, clients=nclients, lua=lua, typed=typed, steps=infer_gates(hist) + steps, **{'class': cls})
+    if slow > 1:
+        sc['slow'] = slow
+    if slow > 1 or single:
+        sc['single'] = True
+    return sc
 
 
 _STATE = re.compile(r'^State (\d+): <(\w+)(?:\(([^)]*)\))? line', re.M)
-NAMES = {'Begin': 'Get', 'Lock': 'Locked', 'LoadOk': 'LoadOk', 'LoadFail': 'LoadFail', 'Timeout': 'Timeout', 'Die': 'Die',
+NAMES = {'Start': 'Read', 'Keepalive': 'Keepalive', 'KaAdopt': 'KaAdopt', 'Lock': 'Locked', 'LoadOk': 'LoadOk',
+         'LoadFail': 'LoadFail', 'Timeout': 'Timeout', 'Die': 'Die',
          'UserDel': 'Del', 'KeyExpire': 'KeyExpire', 'IdExpire': 'IdExpire', 'Disconnect': 'Disconnect', 'SetKey': 'SetKey',
-         'Unlock': 'Unlock', 'Steal': 'Steal'}
+         'Unlock': 'Unlock', 'Steal': 'Steal', 'PhCheck': 'PhCheck'}
 
 
-def hist_of_counterexample(out):
-    """The behaviour of a TLC error trace as records of the `hist` variable of Aside.tla (action names and arguments;
-    a Lock step counts as `Locked` only when it took the lock, which shows as a loader run)."""
+def _tuple(body, name):
+    m = re.search(r'/\\ %s = <<(.*?)>>' % name, body, re.S)
+    return [x.strip().strip('"') for x in m.group(1).split(',')] if m else None
+
+
+def hist_of_counterexample(out, co=None):
+    """The behaviour of a TLC error trace as records of the `hist` variable of Aside.tla (action names, arguments and
+    what the records add: a Lock step counts as `Locked` only when it took the lock, which shows as a loader run; a
+    PhCheck that finds the liveness key gone is `PhGone`; the kind of an IdExpire). co: caller -> client."""
     heads = list(_STATE.finditer(out))
-    hist, nloads = [], 0
+    hist, nloads, inc, dead, tgt = [], 0, None, set(), {}
     for n, h in enumerate(heads):
         body = out[h.end():heads[n + 1].start() if n + 1 < len(heads) else len(out)]
         act = h.group(2)
-        args = [int(x) for x in (h.group(3) or '').replace(' ', '').split(',') if x.lstrip('-').isdigit()]
+        raw = [x for x in (h.group(3) or '').replace(' ', '').split(',') if x]
+        args = [int(x) for x in raw if x.lstrip('-').isdigit()]
         m = re.search(r'/\\ nloads = (\d+)', body)
         cur = int(m.group(1)) if m else nloads
-        if act in NAMES:
+        pcs = _tuple(body, 'pc')
+        rec = None
+        if act in ('Begin', 'BeginAny', 'BeginNil'):
+            rec = dict(a='GetNil' if 'TRUE' in raw or act == 'BeginNil' else 'Get', p=args[0], k=args[1])
+            tgt[args[0]] = args[1]
+        elif act in ('UserDel', 'KeyExpire'):
+            rec = dict(a=NAMES[act], p=0, c=0, k=args[0])
+        elif act == 'IdExpire':
+            c, i = args
+            kind = 'dead' if c in dead else 'late' if inc and int(inc[c - 1]) == i else 'orphan'
+            rec = dict(a='IdExpire', p=0, c=c, k=i, s=kind)
+        elif act in ('Die', 'Disconnect'):
+            rec = dict(a=act, p=0, c=args[0], k=0)
+        elif act in NAMES:
+            p = args[0]
             name = NAMES[act]
             if act == 'Lock' and cur == nloads:
                 name = 'LockBusy'
-            c = 0 if act in ('UserDel', 'KeyExpire') else (args[0] if args else 0)
-            k = args[0] if act in ('UserDel', 'KeyExpire') else (args[1] if len(args) > 1 else 1)
-            hist.append(dict(a=name, c=c, k=k))
+            if act == 'PhCheck' and pcs and pcs[p - 1] == 'steal':
+                name = 'PhGone'
+            rec = dict(a=name, p=p, k=tgt.get(p, 1))
+        if rec is not None:
+            if 'c' not in rec:
+                rec['c'] = co[rec['p'] - 1] if co else rec['p']
+            hist.append(rec)
         nloads = cur
-    # the key of every later step of a Get is the one given at its Begin
-    key = {}
-    for r in hist:
-        if r['a'] == 'Get':
-            key[r['c']] = r['k']
-        elif r['c'] in key and r['a'] not in ('Del', 'KeyExpire', 'IdExpire'):
-            r['k'] = key[r['c']]
+        inc = _tuple(body, 'inc') or inc
+        m = re.search(r'/\\ dead = \{([^}]*)\}', body)
+        if m:
+            dead = {int(x) for x in m.group(1).split(',') if x.strip()}
     return hist
+
+
+def nil_class(hist):
+    """What a generated behaviour shows the Get without a loader that returns last: the states in which it read the key
+    (nil / phlive / phdead / v), what the specification lets it return, and what the environment did to the holder."""
+    g = max(j for j, r in enumerate(hist) if r['a'] == 'GetNil')
+    seen = [r['s'] for r in hist[g:] if r['a'] == 'Read' and r['p'] == hist[g]['p']]
+    return '%s->%s' % ('+'.join(seen), hist[-1]['r'])
 
 
 def scenarios(ctx, th):
     scs = []
-    for cfg, cls in (('MC_aside_neg_ph.cfg', 'cex-timeout'), ('MC_aside_neg_live.cfg', 'cex-steal'),
-                     ('MC_aside_neg_del.cfg', 'cex-unlock')):
-        r = CEX.get(cfg)
-        if r is None:
-            r = vlib.tlc(FAMILY, 'AsideGen', cfg, workers=2, timeout=600)
-            ctx.tlc_runs.append(r.summary())
-        hist = hist_of_counterexample(r.output)
-        if not any(x['a'] == 'Get' for x in hist):
+    for cfg, cls in REPLAYED:
+        r = ctx.run_tlc(FAMILY, 'AsideGen', cfg, expect_violation=dict(NEG)[cfg], workers=2, timeout=600)
+        if r.violated != dict(NEG)[cfg]:
+            continue                     # (reported as inconclusive by run_tlc)
+        hist = hist_of_counterexample(r.output, CO.get(cfg))
+        if not any(x['a'] in ('Get', 'GetNil') for x in hist):
             ctx.inconclusive.append('no counterexample behaviour from %s: %s' % (cfg, r.error))
             continue
         for rep in range(4):
-            scs.append(project(hist, '%s-%d' % (cls, rep), cls, lua=rep % 2 == 1, typed=rep >= 2))
+            scs.append(project(hist, '%s-%d' % (cls, rep), cls, lua=rep % 2 == 1, typed=rep >= 2,
+                               slow=4 if cls == 'cex-register' and rep >= 2 else 0, single=cls == 'cex-register' or rep == 3))
+    # Gets without a loader at every state of the key: exhaustive generation, one scenario per class of behaviour
+    r = vlib.tlc(FAMILY, 'AsideGen', 'MC_aside_nilgen.cfg', simulate=(1500 if th else 600), depth=30, seed=ctx.seed,
+                 collect_cases=True, timeout=900)
+    ctx.tlc_runs.append(r.summary())
+    classes = {}
+    for hist in r.cases:
+        classes.setdefault(nil_class(hist), []).append(hist)
+    ctx.extra['nil_get_classes'] = {k: len(v) for k, v in sorted(classes.items())}
+    rng = __import__('random').Random(ctx.seed)
+    for n, (cls, hs) in enumerate(sorted(classes.items())):
+        for rep, hist in enumerate(rng.sample(hs, min(len(hs), 6 if th else 3))):
+            scs.append(dict(project(hist, 'nil%d-%d' % (n, rep), 'nilget', lua=(n + rep) % 2 == 0, single=n % 2 == 1), expect=cls))
+    if not classes:
+        ctx.inconclusive.append('generation of Gets without a loader produced nothing: %s\n%s' % (r.error, r.output[-1500:]))
     r = vlib.tlc(FAMILY, 'AsideGen', 'MC_aside_gen.cfg', simulate=(400 if th else 80), depth=34, seed=ctx.seed,
                  collect_cases=True, timeout=900)
     ctx.tlc_runs.append(r.summary())
     seen = set()
     for n, hist in enumerate(r.cases):
-        sc = project(hist, 'gen%d' % n, 'generated', lua=n % 2 == 0, typed=n % 3 == 0)
+        # every fourth behaviour without a death runs on a slow server clock with one long loader: no liveness key of a
+        # live client may expire there
+        slow = 4 if n % 4 == 1 and not any(x['a'] in ('Die', 'IdExpire') for x in hist) else 0
+        sc = project(hist, 'gen%d' % n, 'generated', lua=n % 2 == 0, typed=n % 3 == 0, slow=slow, single=n % 2 == 1)
+        if slow:
+            g = next((s for s in sc['steps'] if s['op'] == 'get' and not s.get('nil') and not s['fail']), None)
+            if g is not None:
+                g['load'], g['ttl'] = 1700, 3500
         key = json.dumps(sc['steps'], sort_keys=True)
         if key in seen or sum(1 for s in sc['steps'] if s['op'] == 'get') < 2:
             continue
@@ -159,7 +313,7 @@ def drive(ctx, th, scs):
             e = index[j]
             evs = events[e['first'] - 1:e['last']]
             for prop in sorted(props):
-                if prop == 'DeadLockReleased' and not confirm(ctx, binp, e['scenario'], prop, tmp):
+                if prop in RERUN and not confirm(ctx, binp, e['scenario'], prop, tmp):
                     ctx.notes.append('%s on scenario %s did not reproduce (timing)' % (prop, e['scenario']['id']))
                     continue
                 dst = lockaside_common.keep_trace(ctx, '%s-%s.ndjson' % (prop, e['scenario']['id']), evs)
@@ -188,7 +342,15 @@ def confirm(ctx, binp, sc, prop, tmp):
 
 def run(ctx):
     th = ctx.tier == 'thorough'
+    mt = None
     if os.environ.get('VERIF_ONLY') != 'drive':      # development aid (mutation self-tests): skip the pure model part
-        model(ctx, th)
-    scs = scenarios(ctx, th)
-    drive(ctx, th, scs)
+        # the pure model part and the driver side are independent: they run side by side (two jobs at a time)
+        mt = threading.Thread(target=model, args=(ctx, th))
+        mt.start()
+    try:
+        if os.environ.get('VERIF_ONLY') != 'model':
+            scs = scenarios(ctx, th)
+            drive(ctx, th, scs)
+    finally:
+        if mt is not None:
+            mt.join()
